@@ -541,6 +541,13 @@ func c10Binary(env *runEnv, r *rand.Rand) {
 		raw([]byte("RDG_IN_DATA /remoteDesktopGateway/ HTTP/1.1\r\nHost: x\r\nRdg-Connection-Id: {none}\r\nTransfer-Encoding: chunked\r\n\r\n"))
 		raw([]byte("RDG_OUT_DATA /remoteDesktopGateway/ HTTP/1.1\r\nHost: x\r\nAuthorization: NTLM\r\nContent-Length: 0\r\n\r\n"))
 		raw([]byte("RDG_OUT_DATA /remoteDesktopGateway/ HTTP/1.1\r\nHost: x\r\nAuthorization: Negotiate\r\nAuthorization: Basic\r\nContent-Length: 0\r\n\r\n"))
+		// messages the authentication service answers with an error rather than a verdict
+		for _, m := range []string{"AAAA", "TlRMTVNTUAAB", "TlRMTVNTUAADAAAA//8=", "!!!!", "TlRMTVNTUAAD" + strings.Repeat("/", 64)} {
+			raw([]byte("RDG_OUT_DATA /remoteDesktopGateway/ HTTP/1.1\r\nHost: x\r\nAuthorization: NTLM " + m + "\r\nContent-Length: 0\r\n\r\n"))
+			raw([]byte("RDG_OUT_DATA /remoteDesktopGateway/ HTTP/1.1\r\nHost: x\r\nAuthorization: Negotiate " + m + "\r\nContent-Length: 0\r\n\r\n"))
+		}
+		raw([]byte("GET /metrics HTTP/1.1\r\nHost: x\r\nX-Forwarded-For: ,\r\n\r\n"))
+		raw([]byte("GET /tokeninfo HTTP/1.1\r\nHost: x\r\nX-Forwarded-For:  , , \r\nX-Real-Ip: ,\r\n\r\n"))
 		raw([]byte("POST /KdcProxy HTTP/1.1\r\nHost: x\r\nContent-Length: 3\r\n\r\n\x30\x84\xff"))
 		probe("after-hostile-requests")
 		// hostile packets inside an authenticated tunnel: each ends that tunnel at most
@@ -621,7 +628,7 @@ func c10Fragments(env *runEnv, r *rand.Rand) {
 func c10HostileHeaders(env *runEnv) {
 	s := newL2Server(false, 0)
 	defer s.close()
-	hostile := []string{"R\xe9mi-RDP/2.0", "\xff\xfe", strings.Repeat("A", 60000), "", "a\tb", "\x80", "Mozilla/5.0 (\xc3\x28)"}
+	hostile := []string{"R\xe9mi-RDP/2.0", "\xff\xfe", strings.Repeat("A", 60000), "", "a\tb", "\x80", "Mozilla/5.0 (\xc3\x28)", ",", " , , ", ",,,", ";", "=", "\"", ", 10.0.0.1"}
 	for _, name := range []string{"User-Agent", "X-Forwarded-For", "Rdg-Connection-Id", "Cookie", "Rdg-User-Id", "Origin", "Sec-WebSocket-Protocol", "Accept-Language"} {
 		for _, v := range hostile {
 			before := s.panics()
